@@ -106,9 +106,21 @@ func symNameCode(s string) int {
 	}
 	return 0
 }
+
+var idTable = func() []uuid.UUID {
+	t := make([]uuid.UUID, 256)
+	for c := 1; c < len(t); c++ {
+		t[c] = uuid.FromStringOrNil(fmt.Sprintf("00000000-0000-4000-8000-%012d", c))
+	}
+	return t
+}()
+
 func idOf(c int) uuid.UUID {
-	if c == 0 {
+	if c <= 0 {
 		return uuid.Nil
+	}
+	if c < len(idTable) {
+		return idTable[c]
 	}
 	return uuid.FromStringOrNil(fmt.Sprintf("00000000-0000-4000-8000-%012d", c))
 }
@@ -254,7 +266,9 @@ type world struct {
 	hookBad []string
 
 	closedObj map[*symbol.Symbol]bool // objects whose node has been closed
-	alias     map[string]string       // rewritten `ins` line -> pool key of the original definition
+	balMap    map[int]int             // load/unload balance of the log up to balUpTo
+	balUpTo   int
+	alias     map[string]string // rewritten `ins` line -> pool key of the original definition
 
 	// refusing hooks (`mode refuse u a sym once code`): u = unload hook, a = runs after the
 	// observing hooks, refuses symbol sym (once / always) with error E<code>
@@ -314,9 +328,20 @@ func errOf(k int) error {
 	return errors.New("E" + strconv.Itoa(k))
 }
 
+// maxID: ids 1..maxID may occur in a case (the size family uses up to ~125 symbols).
+const maxID = 130
+
+var idCode = func() map[uuid.UUID]int {
+	m := map[uuid.UUID]int{}
+	for k := 1; k <= maxID; k++ {
+		m[idOf(k)] = k
+	}
+	return m
+}()
+
 func newWorld() *world {
 	w := &world{inReg: map[*port.InPort]string{}, inLive: map[*port.InPort]*symbol.Symbol{}, cur: map[int]*live{}, idKey: map[string]int{}}
-	for k := 1; k <= 12; k++ {
+	for k := 1; k <= maxID; k++ {
 		v, _ := types.Marshal(idOf(k))
 		w.idKey[fmt.Sprint(types.InterfaceOf(v))] = k
 	}
@@ -384,10 +409,8 @@ func (w *world) table() *symbol.Table {
 }
 
 func (w *world) code(id uuid.UUID) int {
-	for k := 1; k <= 12; k++ {
-		if idOf(k) == id {
-			return k
-		}
+	if k, ok := idCode[id]; ok {
+		return k
 	}
 	return -1
 }
@@ -840,35 +863,34 @@ func (w *world) refs() []string {
 }
 
 // balances: loads minus unloads per symbol over the whole log so far.
+// balances: loads minus unloads per symbol over the whole log so far. The log only grows (and an
+// operation's raw hook calls are collapsed before anybody reads it), so the counts are kept
+// incrementally: only the events appended since the last call are read.
 func (w *world) balances() map[int]int {
-	bal := map[int]int{}
 	w.mu.Lock()
-	for _, e := range w.log {
+	if w.balMap == nil {
+		w.balMap = map[int]int{}
+	}
+	for _, e := range w.log[w.balUpTo:] {
 		switch e.k {
 		case 'L':
-			bal[e.subj]++
+			w.balMap[e.subj]++
 		case 'U':
-			bal[e.subj]--
+			w.balMap[e.subj]--
 		}
+	}
+	w.balUpTo = len(w.log)
+	bal := make(map[int]int, len(w.balMap))
+	for k, v := range w.balMap {
+		bal[k] = v
 	}
 	w.mu.Unlock()
 	return bal
 }
 
 func (w *world) active() []int {
-	bal := map[int]int{}
-	w.mu.Lock()
-	for _, e := range w.log {
-		switch e.k {
-		case 'L':
-			bal[e.subj]++
-		case 'U':
-			bal[e.subj]--
-		}
-	}
-	w.mu.Unlock()
 	var a []int
-	for k, v := range bal {
+	for k, v := range w.balances() {
 		if v > 0 {
 			a = append(a, k)
 		}
@@ -1058,9 +1080,14 @@ func acyclic(cur map[int]*live) bool {
 			return true
 		}
 		state[id] = 1
-		for t := range cur {
-			if refsLive(cur, id, t) && !visit(t) {
-				return false
+		// the live same-namespace targets of id's references (as refsLive, without the n² scan)
+		if l, ok := cur[id]; ok {
+			for _, p := range l.def.Ports {
+				for _, r := range p.Refs {
+					if d := resolveRef(cur, l.def, r); d != nil && d.NS == l.def.NS && !visit(d.ID) {
+						return false
+					}
+				}
 			}
 		}
 		state[id] = 2
